@@ -411,6 +411,12 @@ func famRange(c *Ctx) {
 			g.fill = 60
 		}
 		m := g.message(mt)
+		if mt.Descriptor().FullName() == "pb2.KnownTypes" && c.Intn(10) < 7 {
+			// make sure the Any field is populated often (its expansion is the interesting case)
+			if fd := mt.Descriptor().Fields().ByName("opt_any"); fd != nil && !m.ProtoReflect().Has(fd) {
+				g.fillField(m.ProtoReflect(), fd, 3)
+			}
+		}
 		rangeOne(c, m)
 	}
 }
